@@ -14,6 +14,10 @@ def sh(cmd, cwd=None):
 
 
 assert sh('git -C /repo diff --quiet')[0] == 0, '/repo has uncommitted changes'
+# runs against a changed tree must not leave their evidence behind
+sh('rm -rf /var/tmp/evidence_keep && cp -r %s/evidence /var/tmp/evidence_keep' % VERIF)
+import atexit
+atexit.register(lambda: sh('rm -rf %s/evidence && mv /var/tmp/evidence_keep %s/evidence' % (VERIF, VERIF)))
 for mid in ids:
     pid = mid[:3]
     patch = os.path.join(VERIF, 'seeded', mid, 'patch.diff')
